@@ -381,7 +381,7 @@ def judge(ctx, case, site, gaps, shape, mtype, res, exp_cols, weights, cols_of=N
     tail = " [gaps_as_missing=%s, weights=%r]" % (bool(gaps), weights)
 
     def gapmix():
-        if alt_exp is None:
+        if alt_exp is None or weights is not None:
             return None
         alt = alt_exp()
         alt_list = [wi * e for wi, e in zip(w, alt)]
